@@ -199,6 +199,46 @@ theorem C09_electrum_commute (S : Setting g) (w w' : Wallet) (k : Int) (hk : w.s
   rw [hk]
   simp only [hmp, keyInit, hon, if_true]
 
+
+/-- **electrum_one_arg.** The constructor accepts exactly one of its four arguments: with none or several it raises
+`ValueError`, with one it is the single-argument constructor -/
+theorem C09_electrum_one_arg (args : List Arg) (w : Wallet) (h : mkWalletArgs g args = .ok w) :
+    ∃ a, args = [a] ∧ mkWallet g a = .ok w := by
+  match args, h with
+  | [a], h => exact ⟨a, rfl, h⟩
+
+/-- **electrum_serialize_rt (private).** A wallet built from a master private key serialises to 32 bytes (the
+exponent, big-endian) and `deserialize` of those bytes builds the same wallet (curve order below 2^256) -/
+theorem C09_electrum_serialize_rt (k : Int) (w : Wallet) (hn : (g.c.n : Int) ≤ 2 ^ 256)
+    (h : mkWallet g (.masterPrivateKey k) = .ok w) :
+    w.serialize = .ok (beBytes k.toNat 32) ∧ Electrum.deserialize g (beBytes k.toNat 32) = .ok (some w) := by
+  have hk : keyInit g (.priv k) = .ok (w.secretExponent, w.publicPair) := by
+    unfold mkWallet at h
+    cases hki : keyInit g (.priv k) with
+    | error e => simp [hki] at h
+    | ok r => simp only [hki] at h; cases h; rfl
+  obtain ⟨hse, h1, h2, -, -⟩ := keyInit_priv_ok hk
+  have h256 : k < 2 ^ 256 := by omega
+  have hfrom : fromBytes32 (beBytes k.toNat 32) = k := by
+    unfold fromBytes32
+    rw [beNat_beBytes_of_lt (by
+      have : (k.toNat : Int) < 2 ^ 256 := by rw [Int.toNat_of_nonneg (by omega)]; exact h256
+      exact_mod_cast this)]
+    exact Int.toNat_of_nonneg (by omega)
+  constructor
+  · unfold Wallet.serialize
+    rw [hse]
+    have : k ≠ 0 := by omega
+    simp only [this, ne_eq, not_false_eq_true, if_true]
+    exact toBytes32_ok (by omega) h256
+  · unfold Electrum.deserialize
+    simp only [beBytes_length, if_true, hfrom, h]
+
+/-- **electrum_deserialize_lengths.** Blobs of any other length than 32 or 64 bytes are not a wallet (`None`), never an error -/
+theorem C09_electrum_deserialize_lengths (blob : Bytes) (h32 : blob.length ≠ 32) (h64 : blob.length ≠ 64) :
+    Electrum.deserialize g blob = .ok none := by
+  simp [Electrum.deserialize, h32, h64]
+
 end electrum
 
 /-! ## serialisation and text form -/
@@ -332,6 +372,150 @@ theorem C09_secp256k1_side_conditions :
     Pycoin.Gen.Curves.secp256k1.n % 2 = 1 ∧ Pycoin.Gen.Curves.secp256k1.p % 4 = 3 ∧
       byteCount Pycoin.Gen.Curves.secp256k1.p = 32 := by
   decide +kernel
+
+
+/-! ### the constructor's argument check, `override_network`, `children` -/
+
+/-- **ctor_exactly_one.** `BIP32Node(...)` returns only when exactly one of `secret_exponent` and `public_pair` is
+given, and is then the constructor on that argument -/
+theorem C09_ctor_exactly_one (kind : Kind) (cc : Bytes) (depth : Nat) (fp : Bytes) (idx : Nat)
+    (se : Option Int) (pp : Option Curve.Pt) (n : Node) (h : mkNodeArgs g kind cc depth fp idx se pp = .ok n) :
+    (∃ k, se = some k ∧ pp = none ∧ mkNode g kind cc depth fp idx (.priv k) = .ok n) ∨
+    (∃ q, se = none ∧ pp = some q ∧ mkNode g kind cc depth fp idx (.pub q) = .ok n) := by
+  unfold mkNodeArgs at h
+  split at h
+  · rename_i k; exact Or.inl ⟨k, rfl, rfl, h⟩
+  · rename_i q; exact Or.inr ⟨q, rfl, rfl, h⟩
+  · cases h
+
+theorem deserialize_kind (k k' : Kind) (data : Bytes) :
+    deserialize g k data = (deserialize g k' data).map (fun n => { n with kind := k }) := by
+  have hmk : ∀ cc d fp idx key, mkNode g k cc d fp idx key =
+      (mkNode g k' cc d fp idx key).map (fun n => { n with kind := k }) := by
+    intro cc d fp idx key
+    unfold mkNode
+    cases keyInit g key with
+    | error e => rfl
+    | ok r =>
+      simp only
+      split
+      · rfl
+      · split <;> rfl
+  unfold deserialize
+  split
+  · rfl
+  · split
+    · split
+      · exact hmk _ _ _ _ _
+      · cases secToPublicPair g.c (data.drop 45) with
+        | error e => rfl
+        | ok pp => exact hmk _ _ _ _ _
+    · rfl
+
+/-- **override_network (private node).** Moving a constructed private node to another network keeps depth, parent
+fingerprint, child number, chain code, exponent and public pair; the result is a plain BIP32 node there -/
+theorem C09_override_network (n : Node) (se : Int) (hv : n.Valid g) (hse : n.secretExponent = some se)
+    (hd : n.depth ≤ 255) (hi : n.childIndex < 2 ^ 32) (hn : g.c.n ≤ 2 ^ 256) :
+    n.overrideNetwork g = .ok { n with kind := .bip32 } := by
+  obtain ⟨blob, h1, -, -, -, h5⟩ := C09_serialize_rt n se hv hse hd hi hn [0, 0, 0, 0] rfl none (Or.inr rfl)
+  unfold Node.overrideNetwork
+  rw [h1]
+  simp only
+  rw [deserialize_kind .bip32 n.kind, h5]
+  rfl
+
+theorem mapMExcept_ok {α β : Type} (f : α → Except Err β) : ∀ (xs : List α) (ys : List β),
+    mapMExcept f xs = .ok ys →
+    ys.length = xs.length ∧ ∀ (j : Nat) (x : α), xs[j]? = some x → ∃ y, ys[j]? = some y ∧ f x = .ok y
+  | [], ys, h => by
+    simp only [mapMExcept] at h
+    cases h
+    exact ⟨rfl, by intro j x hx; simp at hx⟩
+  | a :: as, ys, h => by
+    unfold mapMExcept at h
+    cases hfa : f a with
+    | error e => simp [hfa] at h
+    | ok b =>
+      cases hr : mapMExcept f as with
+      | error e => simp [hfa, hr] at h
+      | ok bs =>
+        simp only [hfa, hr] at h
+        cases h
+        obtain ⟨hl, hall⟩ := mapMExcept_ok f as bs hr
+        refine ⟨by simp [hl], ?_⟩
+        intro j x hx
+        cases j with
+        | zero => simp at hx; subst hx; exact ⟨b, by simp, hfa⟩
+        | succ j => simpa using hall j x (by simpa using hx)
+
+/-- **children.** `children(max_level, start_index, include_hardened)` yields, in order, `subkey(i)` and (when asked)
+`subkey(i, is_hardened=True)` for `i = start_index … start_index + max_level`: nothing else, nothing twice -/
+theorem C09_children (fuel : Nat) (n : Node) (m s : Nat) (hard : Bool) (l : List Node)
+    (h : n.children g fuel m s hard = .ok l) :
+    l.length = (m + 1) * (if hard then 2 else 1) ∧
+    ∀ d, d ≤ m →
+      (if hard then
+        (∃ a b, l[2 * d]? = some a ∧ l[2 * d + 1]? = some b ∧ subkey0 g fuel n ((s + d : Nat) : Int) false none = .ok a ∧
+          subkey0 g fuel n ((s + d : Nat) : Int) true none = .ok b)
+       else ∃ a, l[d]? = some a ∧ subkey0 g fuel n ((s + d : Nat) : Int) false none = .ok a) := by
+  unfold Node.children at h
+  obtain ⟨hl, hall⟩ := mapMExcept_ok _ _ _ h
+  have hcalls : ∀ (m : Nat), (childrenCalls m s hard).length = (m + 1) * (if hard then 2 else 1) ∧
+      ∀ d, d ≤ m → (if hard then
+          (childrenCalls m s hard)[2 * d]? = some (s + d, false) ∧ (childrenCalls m s hard)[2 * d + 1]? = some (s + d, true)
+        else (childrenCalls m s hard)[d]? = some (s + d, false)) := by
+    intro m
+    cases hard with
+    | false =>
+      have : childrenCalls m s false = (List.range (m + 1)).map (fun d => (s + d, false)) := by
+        simp [childrenCalls, List.flatMap, List.map]
+        induction (List.range (m + 1)) with
+        | nil => rfl
+        | cons a as ih => simp [ih]
+      rw [this]
+      refine ⟨by simp, ?_⟩
+      intro d hd
+      simp only [Bool.false_eq_true, if_false]
+      rw [List.getElem?_map, List.getElem?_range (by omega)]
+      rfl
+    | true =>
+      have key : ∀ (r : List Nat), (r.flatMap fun d => [(s + d, false), (s + d, true)]).length = r.length * 2 ∧
+          ∀ j x, r[j]? = some x →
+            (r.flatMap fun d => [(s + d, false), (s + d, true)])[2 * j]? = some (s + x, false) ∧
+            (r.flatMap fun d => [(s + d, false), (s + d, true)])[2 * j + 1]? = some (s + x, true) := by
+        intro r
+        induction r with
+        | nil => exact ⟨rfl, by intro j x hx; simp at hx⟩
+        | cons a as ih =>
+          refine ⟨by simp [ih.1]; omega, ?_⟩
+          intro j x hx
+          cases j with
+          | zero => simp at hx; subst hx; simp
+          | succ j =>
+            have := ih.2 j x (by simpa using hx)
+            have e1 : 2 * (j + 1) = (2 * j) + 2 := by omega
+            have e2 : 2 * (j + 1) + 1 = (2 * j + 1) + 2 := by omega
+            simp only [List.flatMap_cons, e1, e2]
+            simpa using this
+      have hk := key (List.range (m + 1))
+      simp only [childrenCalls, if_true]
+      refine ⟨by simp [hk.1], ?_⟩
+      intro d hd
+      exact hk.2 d d (List.getElem?_range (by omega))
+  obtain ⟨hc1, hc2⟩ := hcalls m
+  refine ⟨by rw [hl, hc1], ?_⟩
+  intro d hd
+  have := hc2 d hd
+  cases hard with
+  | false =>
+    simp only [Bool.false_eq_true, if_false] at this ⊢
+    obtain ⟨y, hy1, hy2⟩ := hall d _ this
+    exact ⟨y, hy1, hy2⟩
+  | true =>
+    simp only [if_true] at this ⊢
+    obtain ⟨a, ha1, ha2⟩ := hall _ _ this.1
+    obtain ⟨b, hb1, hb2⟩ := hall _ _ this.2
+    exact ⟨a, b, ha1, hb1, ha2, hb2⟩
 
 end ser
 
